@@ -8,11 +8,27 @@
 use bytecode::{raise_error, BytecodePrimitive, FFIReturnValue};
 use std::io::Write;
 
+/// Which build this is.  The plain build (`A`) logs and answers exactly as documented below; the tagged builds
+/// prefix every log line, the `const_str` answer and the raised message with `B:` / `C:` and shift `const_int`
+/// by 1000 / 2000, so that the harness can tell which library really served a call.
+#[cfg(feature = "variant_b")]
+const TAG: &str = "B:";
+#[cfg(feature = "variant_b")]
+const SHIFT: i32 = 1000;
+#[cfg(all(feature = "variant_c", not(feature = "variant_b")))]
+const TAG: &str = "C:";
+#[cfg(all(feature = "variant_c", not(feature = "variant_b")))]
+const SHIFT: i32 = 2000;
+#[cfg(not(any(feature = "variant_b", feature = "variant_c")))]
+const TAG: &str = "";
+#[cfg(not(any(feature = "variant_b", feature = "variant_c")))]
+const SHIFT: i32 = 0;
+
 fn record(name: &str, args: &[BytecodePrimitive]) {
     let Some(path) = std::env::var_os("MSCRIPT_FFI_PROBE_LOG") else {
         return;
     };
-    let line = format!("{name} {args:?}\n");
+    let line = format!("{TAG}{name} {args:?}\n");
     if let Ok(mut f) = std::fs::OpenOptions::new()
         .create(true)
         .append(true)
@@ -45,7 +61,7 @@ pub fn echo_last(args: &[BytecodePrimitive]) -> FFIReturnValue {
 #[no_mangle]
 pub fn const_int(args: &[BytecodePrimitive]) -> FFIReturnValue {
     record("const_int", args);
-    FFIReturnValue::Value(BytecodePrimitive::Int(-123_456_789))
+    FFIReturnValue::Value(BytecodePrimitive::Int(-123_456_789 + SHIFT))
 }
 
 #[no_mangle]
@@ -77,9 +93,9 @@ pub fn const_bool(args: &[BytecodePrimitive]) -> FFIReturnValue {
 #[no_mangle]
 pub fn const_str(args: &[BytecodePrimitive]) -> FFIReturnValue {
     record("const_str", args);
-    FFIReturnValue::Value(BytecodePrimitive::Str(
-        "probe says: \"h\u{e9}llo, w\u{f6}rld\" \u{2713}".to_owned(),
-    ))
+    FFIReturnValue::Value(BytecodePrimitive::Str(format!(
+        "{TAG}probe says: \"h\u{e9}llo, w\u{f6}rld\" \u{2713}"
+    )))
 }
 
 #[no_mangle]
@@ -91,5 +107,22 @@ pub fn no_value(args: &[BytecodePrimitive]) -> FFIReturnValue {
 #[no_mangle]
 pub fn raise(args: &[BytecodePrimitive]) -> FFIReturnValue {
     record("raise", args);
-    raise_error!("probe raised: \"bad things\" happened \u{2717} (code 42)")
+    let message = format!("{TAG}probe raised: \"bad things\" happened \u{2717} (code 42)");
+    raise_error!(message)
+}
+
+/// A symbol that exists in the plain build only ("existing symbol, then the same name missing in another library").
+#[cfg(not(any(feature = "variant_b", feature = "variant_c")))]
+#[no_mangle]
+pub fn only_in_a(args: &[BytecodePrimitive]) -> FFIReturnValue {
+    record("only_in_a", args);
+    FFIReturnValue::Value(BytecodePrimitive::Int(11))
+}
+
+/// A symbol that exists in the `B` build only.
+#[cfg(feature = "variant_b")]
+#[no_mangle]
+pub fn only_in_b(args: &[BytecodePrimitive]) -> FFIReturnValue {
+    record("only_in_b", args);
+    FFIReturnValue::Value(BytecodePrimitive::Int(22))
 }
